@@ -23,11 +23,17 @@ RECURSIVE Expand(_, _, _)
 Expand(p, w, i) == IF i > Len(p) THEN <<>>
                    ELSE (IF p[i] = TAB /\ w > 0 THEN [j \in 1..w |-> SP] ELSE <<p[i]>>) \o Expand(p, w, i + 1)
 
-WantVisLen(line, cfg) == (IF cfg.keep /\ line.c \in BodyC THEN Len(line.pre) ELSE 0) + Len(line.pay)
-WantVis(line, cfg) == (IF cfg.keep THEN line.pre ELSE <<>>) \o Expand(line.pay, cfg.tabs, 1)
+\* In a combined diff the prefix columns are always shown; inside a conflict region they are removed (a
+\* kept marker is then the comparison's own '-' or '+').
+ShowsPre(line, cfg) == line.c \in BodyC /\ (cfg.keep \/ line.comb)
+WantVisLen(line, cfg) == (IF ShowsPre(line, cfg) THEN Len(line.pre) ELSE IF line.c = "cin" /\ cfg.keep THEN 1 ELSE 0) + Len(line.pay)
+WantVis(line, cfg) == (IF ShowsPre(line, cfg) THEN line.pre ELSE <<>>) \o Expand(line.pay, cfg.tabs, 1)
+WantVisAs(line, cfg, tag) ==
+  IF line.c = "cin" THEN (IF cfg.keep THEN <<IF tag = "minus" THEN 45 ELSE 43>> ELSE <<>>) \o Expand(line.pay, cfg.tabs, 1)
+  ELSE WantVis(line, cfg)
 
 \* The implementation-shaped model, run on the same history (drift report, never a verdict)
-IS(b) == INSTANCE Impl_Stream WITH Buf <- b, Fixes <- {"D1", "D14"}
+IS(b) == INSTANCE Impl_Stream WITH Buf <- b, Fixes <- {"D1", "D14", "D2"}
 RECURSIVE ImplRun(_, _, _, _)
 ImplRun(b, h, st, k) == IF k > Len(h) THEN st ELSE ImplRun(b, h, IS(b)!Step(st, k, h[k]), k + 1)
 ImplRows(e) == IS(e.cfg.buf)!Finish(ImplRun(e.cfg.buf, e.lines, IS(e.cfg.buf)!InitS, 1)).w
@@ -46,10 +52,14 @@ HunkFile(h, k) == LET d == WantHeader(h[SecStart(h, k)]) IN IF d[2] = 0 THEN d[1
 \* does observed row g satisfy what is wanted (w: a Row of Obs_Stream) for history h?
 RowMatches(h, cfg, w, g) ==
   LET line == h[w.k] IN
-  CASE w.t \in {"raw", "rawopt"} -> g.bid = line.bid   \* whatever it looks like: the same bytes
+  CASE w.t \in {"raw", "rawopt"} -> \/ g.bid = line.bid   \* whatever it looks like: the same bytes
+                                    \* an empty line: an empty row (in a combined hunk it is an unchanged line)
+                                    \/ (line.c = "blank" /\ g.t \in {"blank", "zero"} /\ g.vis = <<>>)
     [] w.t = "commit"  -> g.t = "commit" /\ g.vis = line.pay
-    [] w.t \in BodyC   -> /\ g.t = w.t \/ (g.t = "blank" /\ WantVis(line, cfg) = <<>>)
-                          /\ g.vis = WantVis(line, cfg)
+    [] w.t \in BodyC   -> /\ g.t = w.t \/ (g.t = "blank" /\ WantVisAs(line, cfg, w.t) = <<>>)
+                          /\ g.vis = WantVisAs(line, cfg, w.t)
+    [] w.t = "bar"     -> g.t = "deco"
+    [] w.t = "mergeHdr" -> g.t = "mergeHdr"
     [] w.t = "hunkHdr" -> /\ g.t = "hunkHdr" /\ g.frag = w.k
                           /\ cfg.hhFile => g.fp = <<HunkFile(h, w.k)>>   \* C05/C14: the hunk's own file
     [] w.t = "fileHdr" -> /\ g.t = "fileHdr"
@@ -58,7 +68,7 @@ RowMatches(h, cfg, w, g) ==
                                            /\ g.mode = (w.d[4] = 2)
                                            /\ g.bin = w.d[5]
 
-IsHeader(w) == w.t \in {"fileHdr", "hunkHdr", "commit"}
+IsHeader(w) == w.t \in {"fileHdr", "hunkHdr", "commit", "mergeHdr", "bar"}
 Skippable(g) == g.t \in {"blank", "deco"}
 
 \* Walk wanted rows (index i) and observed rows (index j).  Decoration rows are allowed only
